@@ -48,6 +48,7 @@ def project(events):
     acts, notes = [], []
     last_t = 0
     sender_dead = False
+    was_connected = False
     for e in events:
         k, th = e["k"], e["th"]
         a = None
@@ -86,6 +87,11 @@ def project(events):
                 a = "SWake"
             elif k == "ThreadExit":
                 a = "SExit"
+            elif k == "Get" and e.get("attr") == "connected":
+                # `if message is _EXIT or not self.connected`: read for every item but the marker
+                a = f"SCheckConn {'true' if e['val'] else 'false'}"
+                if not e["val"]:
+                    sender_dead = True  # the item is dropped and the thread ends
             elif k in ("LockWait", "ThreadDied", "Get", "Stall"):
                 continue
             else:
@@ -128,7 +134,12 @@ def project(events):
                     a = "RClrFlag" if e["val"] is False else "SSetFlag"
                 elif k == "Deliver":
                     a = f"RDeliverA {coq_msg(e['status'], e['sfv'])}"
+                elif k == "Set" and e.get("attr") == "connected" and e["val"] is True:
+                    was_connected = True
+                    continue
                 elif k == "Set" and e.get("attr") == "connected" and e["val"] is False:
+                    if not was_connected:
+                        continue  # the initial value written by __init__ (the protocol object is built on the reader thread)
                     a = "ELost"  # connection_lost: from here on the sender drops what it dequeues and stops
                 else:
                     continue
